@@ -41,67 +41,306 @@ theorem shouldQuit_zero (lim : Option Nat) (mc : Nat) : shouldQuit lim mc 0 = li
     · have : mc ≥ l := by omega
       simp [h, this]
 
-/-! ### Summary sink -/
-
-/-- what the counting part of the Summary state looks like relative to the fold -/
-theorem sumEvents_count (sc : SCfg) (c : SumCfg) (find : Oracle)
-    (hml : (sc.multiLine && !sc.invert) = false) (hq : c.hasStats = true ∨ c.kind.quitEarly = false) :
-    ∀ (evs : List Event) (st : SumState), (c.hasStats = true ↔ st.stats.isSome) → Below c.maxMatches st.matchCount →
-      (sumEvents sc c find st evs).matchCount =
-        (countFold sc find c.maxMatches st.matchCount ((st.stats.getD {}).matchCount) evs).1 ∧
-      (st.stats.isSome → ((sumEvents sc c find st evs).stats.getD {}).matchCount =
-        (countFold sc find c.maxMatches st.matchCount ((st.stats.getD {}).matchCount) evs).2) := by
+theorem countFold_shift (sc : SCfg) (find : Oracle) (lim : Option Nat) :
+    ∀ (evs : List Event) (mc sub : Nat),
+      (countFold sc find lim mc sub evs).1 = (countFold sc find lim mc 0 evs).1 ∧
+      (countFold sc find lim mc sub evs).2 = sub + (countFold sc find lim mc 0 evs).2 := by
   intro evs
   induction evs with
-  | nil => intro st _ _; simp [sumEvents, countFold]
+  | nil => intro mc sub; simp [countFold]
   | cons ev rest ih =>
-    intro st hst hb
+    intro mc sub
+    cases ev with
+    | contextBreak => simpa [countFold] using ih mc sub
+    | context k b off ln => simpa [countFold] using ih mc sub
+    | matched buf rs re off ln =>
+      simp only [countFold]
+      by_cases hl : limitReached lim (mc + 1) = true
+      · simp [hl]
+      · simp only [hl, Bool.false_eq_true, ↓reduceIte, Nat.zero_add]
+        have h1 := ih (mc + 1) (sub + (findIterInContext sc find buf rs re).length)
+        have h2 := ih (mc + 1) ((findIterInContext sc find buf rs re).length)
+        constructor
+        · rw [h1.1, h2.1]
+        · rw [h1.2, h2.2]; omega
+
+/-- the reference count of a whole search under `-m N` (`-m 0` searches nothing) -/
+def refCount (sc : SCfg) (find : Oracle) (lim : Option Nat) (evs : List Event) : Nat × Nat :=
+  if lim == some 0 then (0, 0) else countFold sc find lim 0 0 evs
+
+theorem below_zero {lim : Option Nat} (h : (lim == some 0) = false) : Below lim 0 := by
+  unfold Below limitReached
+  cases lim with
+  | none => rfl
+  | some n =>
+    have : n ≠ 0 := by intro hn; subst hn; simp at h
+    have : ¬ (0 ≥ n) := by omega
+    simp [this]
+
+/-! ### Summary sink -/
+
+/-- `SummarySink::matched` outside effective multi-line counting: one more matched callback, the matches inside it
+added to the stats, and "go on" unless the kind quits early (no stats) or the limit is reached. -/
+theorem sumMatched_eq (sc : SCfg) (c : SumCfg) (find : Oracle) (st : SumState) (buf : Bytes) (rs re : Nat)
+    (hml : (sc.multiLine && !sc.invert) = false) :
+    sumMatched sc c find st buf rs re =
+      ({ st with matchCount := st.matchCount + 1
+               , stats := st.stats.map fun s =>
+                   { s with matchCount := s.matchCount + (findIterInContext sc find buf rs re).length
+                          , matchedLines := s.matchedLines + (splitLines sc.lt.asByte (slice buf rs re)).length } },
+       if st.stats.isNone && c.kind.quitEarly then false else !limitReached c.maxMatches (st.matchCount + 1)) := by
+  unfold sumMatched limitReached
+  simp only [hml, Bool.false_eq_true, ↓reduceIte]
+  cases hs : st.stats with
+  | none =>
+    cases hq : c.kind.quitEarly <;> cases hm : c.maxMatches <;> simp
+  | some s =>
+    cases hm : c.maxMatches <;> simp
+
+theorem sumEvents_cons (sc : SCfg) (c : SumCfg) (find : Oracle) (st : SumState) (ev : Event) (rest : List Event) :
+    sumEvents sc c find st (ev :: rest) =
+      if (sumEvent sc c find st ev).2 then sumEvents sc c find (sumEvent sc c find st ev).1 rest
+      else (sumEvent sc c find st ev).1 := by
+  rw [sumEvents]
+
+/-- The Summary sink refines the counting fold. -/
+theorem sumEvents_count (sc : SCfg) (c : SumCfg) (find : Oracle)
+    (hml : (sc.multiLine && !sc.invert) = false) :
+    ∀ (evs : List Event) (st : SumState), (st.stats.isNone && c.kind.quitEarly) = false →
+      Below c.maxMatches st.matchCount →
+      (sumEvents sc c find st evs).matchCount = (countFold sc find c.maxMatches st.matchCount 0 evs).1 ∧
+      ((sumEvents sc c find st evs).stats.map (·.matchCount)) =
+        (st.stats.map fun s => s.matchCount + (countFold sc find c.maxMatches st.matchCount 0 evs).2) := by
+  intro evs
+  induction evs with
+  | nil => intro st _ _; cases hs : st.stats <;> simp [sumEvents, countFold, hs]
+  | cons ev rest ih =>
+    intro st hq hb
+    rw [sumEvents_cons]
+    cases ev with
+    | contextBreak => simpa [sumEvent, countFold] using ih st hq hb
+    | context k b off ln => simpa [sumEvent, countFold] using ih st hq hb
+    | matched buf rs re off ln =>
+      simp only [sumEvent, sumMatched_eq sc c find st buf rs re hml, hq, Bool.false_eq_true, ↓reduceIte, countFold]
+      by_cases hl : limitReached c.maxMatches (st.matchCount + 1) = true
+      · simp only [hl, Bool.not_true, Bool.false_eq_true, ↓reduceIte]
+        cases st.stats <;> simp
+      · have hl' : limitReached c.maxMatches (st.matchCount + 1) = false := by simpa using hl
+        simp only [hl', Bool.not_false, ↓reduceIte, Bool.false_eq_true]
+        have hq' : ((st.stats.map fun s =>
+              { s with matchCount := s.matchCount + (findIterInContext sc find buf rs re).length
+                     , matchedLines := s.matchedLines + (splitLines sc.lt.asByte (slice buf rs re)).length }).isNone
+              && c.kind.quitEarly) = false := by
+          cases hs : st.stats with
+          | none => simpa [hs] using hq
+          | some s => simp
+        have := ih { st with matchCount := st.matchCount + 1
+                           , stats := st.stats.map fun s =>
+                               { s with matchCount := s.matchCount + (findIterInContext sc find buf rs re).length
+                                      , matchedLines := s.matchedLines +
+                                          (splitLines sc.lt.asByte (slice buf rs re)).length } } hq' hl'
+        obtain ⟨h1, h2⟩ := this
+        have hsh := countFold_shift sc find c.maxMatches rest (st.matchCount + 1)
+          ((findIterInContext sc find buf rs re).length)
+        dsimp only at h1 h2 ⊢
+        simp only [Nat.zero_add]
+        constructor
+        · rw [h1, hsh.1]
+        · rw [h2, hsh.2]
+          cases st.stats with
+          | none => rfl
+          | some s => simp; omega
+
+/-! ### Standard sink -/
+
+theorem recordMatchesStd_length (sc : SCfg) (c : StdCfg) (find : Oracle) (buf : Bytes) (rs re : Nat)
+    (hg : c.granular = true) :
+    (recordMatchesStd sc c find buf rs re).length = (findIterInContext sc find buf rs re).length := by
+  simp [recordMatchesStd, hg, shiftSpans]
+
+/-- The Standard sink (no after-context) refines the counting fold. -/
+theorem stdEvents_count (sc : SCfg) (c : StdCfg) (find : Oracle) (ha : sc.afterContext = 0) (hg : c.granular = true) :
+    ∀ (evs : List Event) (st : StdState), st.afterRem = 0 → Below c.maxMatches st.matchCount →
+      (stdEvents sc c find st evs).matchCount = (countFold sc find c.maxMatches st.matchCount 0 evs).1 ∧
+      ((stdEvents sc c find st evs).stats.map (·.matchCount)) =
+        (st.stats.map fun s => s.matchCount + (countFold sc find c.maxMatches st.matchCount 0 evs).2) := by
+  intro evs
+  induction evs with
+  | nil => intro st _ _; cases hs : st.stats <;> simp [stdEvents, countFold, hs]
+  | cons ev rest ih =>
+    intro st har hb
+    rw [Lemmas.PrinterStd.stdEvents_cons]
     cases ev with
     | contextBreak =>
-      simp only [sumEvents, sumEvent, ↓reduceIte, countFold]
-      exact ih st hst hb
+      simp only [stdEvent, stdContextBreak, ↓reduceIte, countFold]
+      exact ih _ (by simpa [StdState.write] using har) (by simpa [StdState.write] using hb)
     | context k b off ln =>
-      simp only [sumEvents, sumEvent, ↓reduceIte, countFold]
-      exact ih st hst hb
+      have hb' : limitReached c.maxMatches st.matchCount = false := hb
+      have har' : (if k == CtxKind.after then st.afterRem - 1 else st.afterRem) = 0 := by
+        split <;> omega
+      simp only [stdEvent, stdContext, StdState.write, har', shouldQuit_zero, hb', Bool.not_false, ↓reduceIte,
+        countFold]
+      exact ih _ rfl hb
     | matched buf rs re off ln =>
-      simp only [sumEvents, sumEvent, sumMatched, hml, Bool.false_eq_true, ↓reduceIte, countFold]
-      cases hs : st.stats with
-      | none =>
-        have hns : c.hasStats = false := by
-          cases hh : c.hasStats with
-          | false => rfl
-          | true => have := hst.mp hh; simp [hs] at this
-        have hqe : c.kind.quitEarly = false := by
-          rcases hq with h | h
-          · simp [hns] at h
-          · exact h
-        simp only [Option.isNone_none, Bool.not_false, Bool.and_self, ↓reduceIte, hqe, Bool.false_eq_true,
-          Option.getD_none]
-        by_cases hl : limitReached c.maxMatches (st.matchCount + 1) = true
-        · have : (match c.maxMatches with | none => false | some l => decide (st.matchCount + 1 ≥ l)) = true := by
-            simpa [limitReached] using hl
-          simp [this, hl]
-        · have hl' : limitReached c.maxMatches (st.matchCount + 1) = false := by simpa using hl
-          have : (match c.maxMatches with | none => false | some l => decide (st.matchCount + 1 ≥ l)) = false := by
-            simpa [limitReached] using hl'
-          simp only [this, Bool.not_false, ↓reduceIte, hl', Bool.false_eq_true]
-          have := ih { st with matchCount := st.matchCount + 1 } (by simpa [hs] using hst) hl'
-          simpa [hs] using this
-      | some s =>
-        simp only [Option.isNone_some, Bool.false_and, Bool.false_eq_true, ↓reduceIte, Option.getD_some]
-        by_cases hl : limitReached c.maxMatches (st.matchCount + 1) = true
-        · have : (match c.maxMatches with | none => false | some l => decide (st.matchCount + 1 ≥ l)) = true := by
-            simpa [limitReached] using hl
-          simp [this, hl]
-        · have hl' : limitReached c.maxMatches (st.matchCount + 1) = false := by simpa using hl
-          have : (match c.maxMatches with | none => false | some l => decide (st.matchCount + 1 ≥ l)) = false := by
-            simpa [limitReached] using hl'
-          simp only [this, Bool.not_false, ↓reduceIte, hl', Bool.false_eq_true]
-          have := ih { st with matchCount := st.matchCount + 1
-                             , stats := some { s with matchCount := s.matchCount + (findIterInContext sc find buf rs re).length
-                                                    , matchedLines := s.matchedLines +
-                                                        (splitLines sc.lt.asByte (slice buf rs re)).length } }
-            (by simpa [hs] using hst) hl'
-          simpa using this
+      have har' : (if moreThanLimit c.maxMatches (st.matchCount + 1) = true then st.afterRem - 1
+          else sc.afterContext) = 0 := by
+        split <;> omega
+      simp only [stdEvent, stdMatched, StdState.write, har', shouldQuit_zero, countFold,
+        recordMatchesStd_length sc c find buf rs re hg]
+      by_cases hl : limitReached c.maxMatches (st.matchCount + 1) = true
+      · simp only [hl, Bool.not_true, Bool.false_eq_true, ↓reduceIte]
+        cases st.stats <;> simp
+      · have hl' : limitReached c.maxMatches (st.matchCount + 1) = false := by simpa using hl
+        simp only [hl', Bool.not_false, ↓reduceIte, Bool.false_eq_true]
+        have := ih { st with matchCount := st.matchCount + 1, afterRem := 0
+                           , stats := st.stats.map fun s =>
+                               { s with matchCount := s.matchCount + (findIterInContext sc find buf rs re).length
+                                      , matchedLines := s.matchedLines +
+                                          (splitLines sc.lt.asByte (slice buf rs re)).length }
+                           , out := st.out ++ sink sc c
+                               { bytes := slice buf rs re, absOff := off, lineNo := ln, ctx := none
+                               , ms := recordMatchesStd sc c find buf rs re } st.count st.total
+                           , count := st.count + (sink sc c
+                               { bytes := slice buf rs re, absOff := off, lineNo := ln, ctx := none
+                               , ms := recordMatchesStd sc c find buf rs re } st.count st.total).length } rfl hl'
+        obtain ⟨h1, h2⟩ := this
+        have hsh := countFold_shift sc find c.maxMatches rest (st.matchCount + 1)
+          ((findIterInContext sc find buf rs re).length)
+        dsimp only at h1 h2 ⊢
+        simp only [Nat.zero_add]
+        constructor
+        · rw [h1, hsh.1]
+        · rw [h2, hsh.2]
+          cases st.stats with
+          | none => rfl
+          | some s => simp; omega
+
+/-- The match count of the Standard sink, whatever its configuration (no after-context). -/
+theorem stdEvents_matchCount (sc : SCfg) (c : StdCfg) (find : Oracle) (ha : sc.afterContext = 0) :
+    ∀ (evs : List Event) (st : StdState), st.afterRem = 0 → Below c.maxMatches st.matchCount →
+      (stdEvents sc c find st evs).matchCount = (countFold sc find c.maxMatches st.matchCount 0 evs).1 := by
+  intro evs
+  induction evs with
+  | nil => intro st _ _; simp [stdEvents, countFold]
+  | cons ev rest ih =>
+    intro st har hb
+    rw [Lemmas.PrinterStd.stdEvents_cons]
+    cases ev with
+    | contextBreak =>
+      simp only [stdEvent, stdContextBreak, ↓reduceIte, countFold]
+      exact ih _ (by simpa [StdState.write] using har) (by simpa [StdState.write] using hb)
+    | context k b off ln =>
+      have hb' : limitReached c.maxMatches st.matchCount = false := hb
+      have har' : (if k == CtxKind.after then st.afterRem - 1 else st.afterRem) = 0 := by
+        split <;> omega
+      simp only [stdEvent, stdContext, StdState.write, har', shouldQuit_zero, hb', Bool.not_false, ↓reduceIte,
+        countFold]
+      exact ih _ rfl hb
+    | matched buf rs re off ln =>
+      have har' : (if moreThanLimit c.maxMatches (st.matchCount + 1) = true then st.afterRem - 1
+          else sc.afterContext) = 0 := by
+        split <;> omega
+      simp only [stdEvent, stdMatched, StdState.write, har', shouldQuit_zero, countFold]
+      by_cases hl : limitReached c.maxMatches (st.matchCount + 1) = true
+      · simp only [hl, Bool.not_true, Bool.false_eq_true, ↓reduceIte]
+      · have hl' : limitReached c.maxMatches (st.matchCount + 1) = false := by simpa using hl
+        simp only [hl', Bool.not_false, ↓reduceIte, Bool.false_eq_true]
+        rw [ih _ (by rfl) (by simpa [Below] using hl')]
+        exact (countFold_shift sc find c.maxMatches rest (st.matchCount + 1) _).1.symm
+
+/-! ### JSON sink -/
+
+/-- number of submatch objects in the `match` messages -/
+def matchSubs (msgs : List Msg) : Nat :=
+  (msgs.map fun m => match m with | .matched _ _ _ _ subs => subs.length | _ => 0).sum
+
+theorem matchSubs_append (a b : List Msg) : matchSubs (a ++ b) = matchSubs a + matchSubs b := by
+  simp [matchSubs, List.map_append, List.sum_append]
+
+theorem matchSubs_writeBegin (jc : JsonCfg) (st : JsonState) : matchSubs (st.writeBegin jc).msgs = matchSubs st.msgs := by
+  unfold JsonState.writeBegin
+  split
+  · rfl
+  · simp [matchSubs]
+
+/-- The JSON sink (no after-context, no abort) refines the counting fold; the submatch objects it prints in
+`match` messages are counted by its own `stats.matches`. -/
+theorem jsonEvents_count (sc : SCfg) (jc : JsonCfg) (find : Oracle) (ha : sc.afterContext = 0) :
+    ∀ (evs : List Event) (st : JsonState), st.afterRem = 0 → st.panicked = false →
+      Below jc.maxMatches st.matchCount → (jsonEvents sc jc find st evs).panicked = false →
+      (jsonEvents sc jc find st evs).matchCount = (countFold sc find jc.maxMatches st.matchCount 0 evs).1 ∧
+      (jsonEvents sc jc find st evs).stats.matchCount =
+        st.stats.matchCount + (countFold sc find jc.maxMatches st.matchCount 0 evs).2 ∧
+      matchSubs (jsonEvents sc jc find st evs).msgs =
+        matchSubs st.msgs + (countFold sc find jc.maxMatches st.matchCount 0 evs).2 := by
+  intro evs
+  induction evs with
+  | nil => intro st _ _ _ _; simp [jsonEvents, countFold]
+  | cons ev rest ih =>
+    intro st har h0 hb hp
+    rw [jsonEvents_cons] at hp ⊢
+    cases ev with
+    | contextBreak =>
+      simp only [jsonEvent, ↓reduceIte, countFold] at hp ⊢
+      exact ih st har h0 hb hp
+    | context k b off ln =>
+      have hb' : limitReached jc.maxMatches st.matchCount = false := hb
+      have hmc : (st.writeBegin jc).matchCount = st.matchCount := by
+        unfold JsonState.writeBegin; split <;> rfl
+      have harw : (st.writeBegin jc).afterRem = 0 := by
+        unfold JsonState.writeBegin; split <;> simpa using har
+      have har' : (if k == CtxKind.after then (st.writeBegin jc).afterRem - 1 else (st.writeBegin jc).afterRem) = 0 := by
+        split <;> omega
+      simp only [jsonEvent, jsonContext, har'] at hp ⊢
+      split at hp
+      · -- out-of-range slice: the search aborts, contradicting `hp`
+        simp at hp
+      · rename_i subs hsubs
+        simp only [shouldQuit_zero, hmc, hb', Bool.not_false, ↓reduceIte, countFold] at hp ⊢
+        have := ih _ (by rfl) (by simpa [writeBegin_panicked] using h0) (by simpa [hmc] using hb) hp
+        obtain ⟨h1, h2, h3⟩ := this
+        refine ⟨h1, ?_, ?_⟩
+        · rw [h2]
+          have : (st.writeBegin jc).stats = st.stats := by unfold JsonState.writeBegin; split <;> rfl
+          simp [this]
+        · rw [h3, matchSubs_append, matchSubs_writeBegin]
+          simp [matchSubs]
+    | matched buf rs re off ln =>
+      have hmc : (st.writeBegin jc).matchCount = st.matchCount := by
+        unfold JsonState.writeBegin; split <;> rfl
+      have harw : (st.writeBegin jc).afterRem = 0 := by
+        unfold JsonState.writeBegin; split <;> simpa using har
+      have hst : (st.writeBegin jc).stats = st.stats := by unfold JsonState.writeBegin; split <;> rfl
+      have har' : (if moreThanLimit jc.maxMatches ((st.writeBegin jc).matchCount + 1) = true
+          then (st.writeBegin jc).afterRem - 1 else sc.afterContext) = 0 := by
+        split <;> omega
+      simp only [jsonEvent, jsonMatched, har'] at hp ⊢
+      split at hp
+      · simp at hp
+      · rename_i subs hsubs
+        obtain ⟨hsub, _⟩ := subMatches_some hsubs
+        have hlen : subs.length = (findIterInContext sc find buf rs re).length := by
+          rw [hsub]; simp [recordMatchesJson, shiftSpans]
+        simp only [shouldQuit_zero, hmc, countFold] at hp ⊢
+        by_cases hl : limitReached jc.maxMatches (st.matchCount + 1) = true
+        · simp only [hl, Bool.not_true, Bool.false_eq_true, ↓reduceIte, hst, recordMatchesJson, shiftSpans,
+            List.length_map, Nat.zero_add, matchSubs_append, matchSubs_writeBegin]
+          refine ⟨trivial, trivial, ?_⟩
+          simp [matchSubs, hlen]
+        · have hl' : limitReached jc.maxMatches (st.matchCount + 1) = false := by simpa using hl
+          simp only [hl', Bool.not_false, ↓reduceIte, Bool.false_eq_true] at hp ⊢
+          have := ih _ (by rfl) (by simpa [writeBegin_panicked] using h0) (by simpa [Below, hmc] using hl') hp
+          obtain ⟨h1, h2, h3⟩ := this
+          have hsh := countFold_shift sc find jc.maxMatches rest (st.matchCount + 1)
+            ((findIterInContext sc find buf rs re).length)
+          dsimp only at h1 h2 h3 ⊢
+          simp only [Nat.zero_add]
+          refine ⟨by rw [h1, hsh.1], ?_, ?_⟩
+          · rw [h2, hsh.2, hst]
+            simp [recordMatchesJson, shiftSpans]
+            omega
+          · rw [h3, hsh.2, matchSubs_append, matchSubs_writeBegin]
+            simp [matchSubs, hlen]
+            omega
 
 end RgVerif.Lemmas.PrinterCount
